@@ -83,6 +83,7 @@ pub struct Spawner {
 
 impl Spawner {
     pub fn spawn(&self, name: impl Into<String>, group: Group, f: impl Future<Output = ()> + 'static) -> Rc<RefCell<String>> {
+        let _u = crate::heapmeter::Untracked::new();
         let w = Rc::new(RefCell::new(String::new()));
         self.q.borrow_mut().push((name.into(), group, Box::pin(f), w.clone()));
         w
@@ -296,7 +297,12 @@ impl Future for YieldNow {
 pub fn yield_now() -> YieldNow {
     YieldNow(false)
 }
+/// `n >= PARK` parks the task for good (never woken; dropped at teardown).
+pub const PARK: usize = 1_000_000;
 pub async fn yield_n(n: usize) {
+    if n >= PARK {
+        return std::future::pending::<()>().await;
+    }
     for _ in 0..n {
         yield_now().await;
     }
@@ -482,6 +488,7 @@ impl Drop for Io {
 
 impl AsyncRead for Io {
     fn poll_read(self: Pin<&mut Self>, cx: &mut Context<'_>, out: &mut ReadBuf<'_>) -> Poll<io::Result<()>> {
+        let _u = crate::heapmeter::Untracked::new();
         self.call_hook("read");
         let mut p = self.rx.borrow_mut();
         if p.buf.is_empty() {
@@ -614,6 +621,7 @@ impl Io {
 
 impl AsyncWrite for Io {
     fn poll_write(self: Pin<&mut Self>, cx: &mut Context<'_>, buf: &[u8]) -> Poll<io::Result<usize>> {
+        let _u = crate::heapmeter::Untracked::new();
         self.call_hook("write");
         match self.do_write(cx, buf.len()) {
             Poll::Ready(Ok(n)) => {
@@ -624,6 +632,7 @@ impl AsyncWrite for Io {
         }
     }
     fn poll_write_vectored(self: Pin<&mut Self>, cx: &mut Context<'_>, bufs: &[io::IoSlice<'_>]) -> Poll<io::Result<usize>> {
+        let _u = crate::heapmeter::Untracked::new();
         self.call_hook("write");
         let total: usize = bufs.iter().map(|b| b.len()).sum();
         match self.do_write(cx, total) {
@@ -648,11 +657,13 @@ impl AsyncWrite for Io {
         self.vectored
     }
     fn poll_flush(self: Pin<&mut Self>, _cx: &mut Context<'_>) -> Poll<io::Result<()>> {
+        let _u = crate::heapmeter::Untracked::new();
         self.call_hook("flush");
         self.tx.borrow_mut().flushes += 1;
         Poll::Ready(Ok(()))
     }
     fn poll_shutdown(self: Pin<&mut Self>, _cx: &mut Context<'_>) -> Poll<io::Result<()>> {
+        let _u = crate::heapmeter::Untracked::new();
         self.call_hook("shutdown");
         let mut p = self.tx.borrow_mut();
         p.shutdown_called = true;
@@ -777,6 +788,7 @@ impl Log {
         Log { events: Rc::new(RefCell::new(Vec::new())), clock: exec.clock.clone(), progress: exec.progress.clone() }
     }
     pub fn push(&self, side: Side, key: u32, api: Api) {
+        let _u = crate::heapmeter::Untracked::new();
         self.progress.set(self.progress.get() + 1);
         self.events.borrow_mut().push(ApiEvent { step: self.clock.get(), side, key, api });
     }
